@@ -1,14 +1,23 @@
 """C06 - ragged-array writes keep all views coherent over any operation history."""
 from pyvc.runner import Run, resolve_failures
+from props.C05 import index_units
 
 
 def run(tier, seed, update_lock=False):
     R = Run('C06', 'other', tier, seed)
+    units = index_units(set(R.excluded()) | {'ra-2d-slice-empty-row'})     # (the empty-row TypeError is C05's listed finding; here it is a helper precondition)
+    #      # every 2-D write computes its flat targets with the same helpers as the reads
+    for u in units:
+        R.prove(u)
+    for u in units:
+        R.canary_check(u)
+    R.conformance('ra.py', units, args=['--prop=C06', '--exclude=' + ','.join(R.excluded())])
     R.bounded('ra.py', 'run-time contract = list-of-rows model applied to every history; every observer after every step; operators; copy-never-aliases',
               'ragged arrays <= 4 rows x length 1..4; histories of <= 2 (quick) / 3 (thorough) operations over a 10-letter mutator alphabet (element, row, row-slice, 2-D slice, paired, mask, append, augmented add)',
               args=['--prop=C06', '--exclude=' + ','.join(R.excluded())])
     R.report_known('ra.py')
     resolve_failures(R, 'ra.py', lambda f: None)
-    R.clauses = [{'clause': 'after every history every observer (rows, flat data, lengths, starts, element / column reads, reductions, comparisons) agrees with the model', 'status': 'bounded'},
+    R.clauses = [{'clause': 'the flat target of a paired (row, column) write lies inside the addressed row (never a neighbouring row\'s cell), out-of-row targets raise IndexError, the caller\'s index arrays are unchanged', 'status': 'proved (SMT on the real _convert_from_2d / _handle_negative_indices / _slice_to_list)'},
+                 {'clause': 'after every history every observer (rows, flat data, lengths, starts, element / column reads, reductions, comparisons) agrees with the model', 'status': 'bounded'},
                  {'clause': 'operators act element-wise, keep the row structure, return new objects, never alter operands; building by copy never aliases the caller\'s data', 'status': 'bounded'}]
     return R.finish('Bounded stand-in (model-based run-time contract over operation histories).', update_lock=update_lock)
